@@ -114,6 +114,18 @@ func genC17(g *Gen) {
 		}
 		g.Do("sigbits.ShardByPrefix/route", L(Strs(keys), Int(maxSize)), key)
 	}
+	// deeply NESTED splits: a^d+"b", a^d+"c" for d = 0..D splits once per d (nesting depth D+1), with
+	// depths around and beyond 32 / 64 (per-level scratch tables, depth counters)
+	for _, D := range []int{30, 31, 32, 33, 40, 63, 64, 65, 70} {
+		var keys []string
+		for d := 0; d <= D; d++ {
+			keys = append(keys, strings.Repeat("a", d)+"b", strings.Repeat("a", d)+"c")
+		}
+		sort.Strings(keys)
+		for _, ms := range []int{1, 2, 3, 5} {
+			do(keys, ms, "nested-deep")
+		}
+	}
 	allSizes := func(keys []string, bucket string) {
 		for ms := 1; ms <= len(keys)+1; ms++ {
 			do(keys, ms, bucket)
